@@ -634,7 +634,7 @@ func evalAggregateFunction(ctx context.Context, scope *ReferenceScope, expr pars
 		}
 
 		if uname == "COUNT" {
-			if pt, ok := listExpr.(parser.PrimitiveType); ok {
+			if pt, ok := listExpr.(parser.PrimitiveType); ok && !expr.IsDistinct() {
 				v := pt.Value
 				if !value.IsNull(v) && !value.IsUnknown(v) && scope.Records[0].IsInRange() {
 					return value.NewInteger(int64(scope.Records[0].view.RecordSet[scope.Records[0].recordIndex].GroupLen())), nil
